@@ -106,6 +106,18 @@ class _SubContext:
         return _SubContext(self._ctx, self._prefix + "." + prefix)
 
 
+def settle_unknown_calls(ctx):
+    """callables without a table row were treated as opaque: definite violations stand; without
+    any, the run has no verdict"""
+    unk = ctx.eng.unknown_calls
+    if not unk:
+        return
+    listing = "; ".join(sorted(unk.values()))[:600]
+    if not ctx.violations:
+        raise AnalysisError("%s: no verdict - the analysed code calls callables that have no row in the may-raise/effect table (sa/tables.py): %s" % (ctx.prop, listing))
+    ctx.note("callables without a table row were treated as opaque (result unknown, may raise anything): " + listing)
+
+
 def load_known():
     known, fixed = [], []
     if os.path.exists(KNOWN_FILE):
@@ -184,6 +196,12 @@ def finish(ctx, t0, explanation, rule_text, extra_cov=None, seed=0, write=True, 
     }
     if ctx.eng._imports is not None:
         cov["dependency_files_parsed_for_import_closure"] = len(ctx.eng._imports.files_read)
+    try:
+        from .crossref import crossref
+
+        cov["generic_crossref_informational"] = crossref(ctx.prog)
+    except Exception as e:  # informational only
+        cov["generic_crossref_informational"] = {"error": repr(e)}
     cov.update(ctx.info)
     if extra_cov:
         cov.update(extra_cov)
